@@ -79,6 +79,7 @@ def main(argv=None):
     ap.add_argument("--no-evidence", action="store_true")
     args = ap.parse_args(argv)
     pid = args.property
+    os.environ["VERIF_TIER"] = args.tier       # contracts may offer more cases in the thorough tier
     seed = int(os.environ.get("VERIF_SEED", "0") or 0)
     t_start = time.time()
     modname = f"props.{pid}"
